@@ -93,9 +93,18 @@ def c16_b(ctx: Ctx):
     out = []
     loops = [n for n in f.node.body if isinstance(n, ast.For)]
     sets = {t.id for n in body_nodes(f) if isinstance(n, ast.Assign) and isinstance(n.value, ast.Call) and canon(n.value) in ("set()",) for t in n.targets if isinstance(t, ast.Name)}
+    verdict = None
+    srt = any(isinstance(c, ast.Call) and isinstance(c.func, ast.Name) and c.func.id == "sorted" for c in body_nodes(f)) or \
+        any(isinstance(c, ast.Call) and isinstance(c.func, ast.Attribute) and c.func.attr == "sort" for c in body_nodes(f))
+    if srt:
+        adj = [lp for lp in [n for n in body_nodes(f) if isinstance(n, ast.For)]
+               if ("zip(" in canon(lp.iter) and "[1:]" in canon(lp.iter)) or any(isinstance(s, ast.Subscript) and "+ 1" in canon(s.slice) for s in ast.walk(lp))]
+        sw = [c for c in body_nodes(f) if isinstance(c, ast.Call) and isinstance(c.func, ast.Attribute) and c.func.attr == "startswith"]
+        if adj and sw and not sets:
+            return [ctx.viol(R, f, adj[0], "the leaf/node check sorts the paths and compares each path only with its neighbour in sort order; the separator '/' sorts after '-', '.', ' ' and other "
+                             "characters, so a sibling such as 'a/x.y' sorts between 'a/x' and 'a/x/z' and hides the conflict: one job is then exported into the directory of another")]
     if not loops or not sets:
         return [ctx.inc(R, f, f.node, "expected loops over the paths and a node set")]
-    verdict = None
     for lp in loops:
         adds = [c for c in ast.walk(lp) if isinstance(c, ast.Call) and isinstance(c.func, ast.Attribute) and c.func.attr == "add" and canon(c.func.value) in sets]
         tests = [c for c in ast.walk(lp) if isinstance(c, ast.Compare) and len(c.ops) == 1 and isinstance(c.ops[0], ast.In) and canon(c.comparators[0]) in sets]
